@@ -80,3 +80,8 @@ func VerifC14ArbitraryAlpn() {
 	_, _ = l.getTlsConfigForClient(&ci)(&tls.ClientHelloInfo{SupportedProtos: protos})
 	vf.Reach("end")
 }
+
+func init() {
+	VfHarnesses["VerifC16ConnHonest"] = VerifC16ConnHonest
+	VfHarnesses["VerifC16ConnForged"] = VerifC16ConnForged
+}
